@@ -28,6 +28,12 @@ TECH = {
  "C19": "runtime monitoring: exception/raise-site monitor for totality, validators, record round trips",
  "C20": "runtime monitoring: algebraic laws between calls; builder read-back with a strict query decoder",
 }
+HIST = "; recorded calls re-evaluated in other call orders in-process and in reverse order in a fresh interpreter (history independence)"
+for _p in ("C01", "C02", "C03", "C04", "C05", "C06", "C07", "C08", "C12", "C13", "C14", "C15", "C16", "C17", "C18", "C19", "C20"):
+    TECH[_p] += HIST
+TECH["C09"] += "; the same query asked right before and right after each add (interleaved history)"
+TECH["C12"] += "; interference monitor (trie use and caller mutation between two conversions)"
+TECH["C15"] += "; counted-steps monitor on sys.monitoring LINE events (termination as a step bound, not a wall-clock one)"
 LEVEL = ("Runtime monitoring of the real functions on generated, directed and exhaustive-small-scope workloads: the property held on every execution observed "
          "(evaluations, distinct non-trivial cases, class coverage, exhaustive sub-spaces, probe events and anchor lines are in the evidence file). No claim beyond the observed "
          "executions; a run whose deciding monitors never fired exits INCONCLUSIVE, not held. This is the right level for an input/history-quantified property of a pure-Python library: "
